@@ -17,7 +17,8 @@ type Place struct {
 	Ref  Term
 	Idx  Term
 	Sort Sort
-	Type types.Type // pointee type
+	Type types.Type // pointee type (for cellfield: the struct type)
+	Field int
 }
 
 type edge struct {
@@ -183,6 +184,10 @@ func (fr *Frame) load(p *Place, st *State) Term {
 	switch p.Kind {
 	case "cell":
 		return c.get(st, p.Heap)
+	case "cellfield":
+		si := c.structInfoOf(p.Type)
+		f := si.fields[p.Field]
+		return Term{app(string(si.sort)+"_"+f.name, c.get(st, p.Heap)), f.sort}
 	case "field", "box":
 		return Select(c.get(st, p.Heap), p.Ref, p.Sort)
 	case "elem":
@@ -207,6 +212,18 @@ func (fr *Frame) store(p *Place, st *State, v Term) {
 		if strings.Contains(v.S, " ") && len(v.S) > 60 {
 			c.set(st, p.Heap, v)
 		}
+	case "cellfield":
+		si := c.structInfoOf(p.Type)
+		cur := c.get(st, p.Heap)
+		var parts []Term
+		for i, f := range si.fields {
+			if i == p.Field {
+				parts = append(parts, v)
+			} else {
+				parts = append(parts, Term{app(string(si.sort)+"_"+f.name, cur), f.sort})
+			}
+		}
+		c.set(st, p.Heap, Term{app("mk_"+string(si.sort), parts...), si.sort})
 	case "field", "box":
 		c.set(st, p.Heap, Store(c.get(st, p.Heap), p.Ref, v))
 	case "elem":
@@ -392,7 +409,7 @@ func (fr *Frame) encodeBody(entryGuard Term, st *State) {
 				if !ok {
 					break
 				}
-				fr.encodePhi(phi, fr.edgesIn[b])
+				fr.encodePhi(phi, fr.edgesIn[b], cur)
 			}
 		}
 		fr.at[b] = at
@@ -411,7 +428,7 @@ func (fr *Frame) encodeBody(entryGuard Term, st *State) {
 	}
 }
 
-func (fr *Frame) encodePhi(phi *ssa.Phi, edges []*edge) {
+func (fr *Frame) encodePhi(phi *ssa.Phi, edges []*edge, merged *State) {
 	c := fr.c
 	if _, isPtr := phi.Type().Underlying().(*types.Pointer); isPtr {
 		if _, ok := isStructPtr(phi.Type()); !ok {
@@ -422,7 +439,7 @@ func (fr *Frame) encodePhi(phi *ssa.Phi, edges []*edge) {
 	fr.vals[phi] = sym
 	b := phi.Block()
 	if len(edges) > 0 {
-		fr.assumeAllocated(phi.Type(), sym, edges[0].st)
+		fr.assumeAllocated(phi.Type(), sym, merged)
 	}
 	for _, e := range edges {
 		// find the operand for this predecessor
@@ -688,8 +705,12 @@ func (c *Enc) frameFormula(st *State, heap string) Term {
 	c.heapVar("nextRef", SInt)
 	c.n++
 	r := fmt.Sprintf("fr!%d", c.n)
-	return Term{fmt.Sprintf("(forall ((%s Int)) (! (=> (< %s %s) (= (select %s %s) (select %s %s))) :pattern ((select %s %s))))",
-		r, r, c.heapInit["nextRef"].S, cur.S, r, init.S, r, cur.S, r), SBool}
+	cond := fmt.Sprintf("(< %s %s)", r, c.heapInit["nextRef"].S)
+	for _, ex := range c.topModifiesAt(heap) {
+		cond = fmt.Sprintf("(and %s (not (= %s %s)))", cond, r, ex.S)
+	}
+	return Term{fmt.Sprintf("(forall ((%s Int)) (! (=> %s (= (select %s %s) (select %s %s))) :pattern ((select %s %s))))",
+		r, cond, cur.S, r, init.S, r, cur.S, r), SBool}
 }
 
 func (c *Enc) topModifies(heap string) bool {
@@ -698,13 +719,29 @@ func (c *Enc) topModifies(heap string) bool {
 		return false
 	}
 	for _, m := range fc.Modifies {
-		for _, h := range c.modifiesHeaps(m) {
+		if m.At != nil {
+			continue
+		}
+		for _, h := range c.modifiesHeaps(m.Pat) {
 			if h == heap {
 				return true
 			}
 		}
 	}
 	return false
+}
+
+// topModifiesAt: the objects of `heap` the top-level contract allows to change (entries with "at").
+func (c *Enc) topModifiesAt(heap string) []Term {
+	return c.topAtRefs[heap]
+}
+
+// atRef turns the value of an "at" expression into the index of its object in the heap array.
+func atRef(tv TV) Term {
+	if tv.T.Sort == SSlice {
+		return slArr(tv.T)
+	}
+	return tv.T
 }
 
 // modifiesHeaps maps a modifies pattern to heap variable names.
@@ -975,6 +1012,11 @@ func (fr *Frame) encodeInstr(ins ssa.Instruction, at Term, st *State) {
 		fr.encodeAlloc(x, at, st)
 	case *ssa.FieldAddr:
 		pt := x.X.Type().Underlying().(*types.Pointer).Elem()
+		if base, ok := fr.places[x.X]; ok && base.Kind == "cell" {
+			si := c.structInfoOf(pt)
+			fr.places[x] = &Place{Kind: "cellfield", Heap: base.Heap, Sort: si.fields[x.Field].sort, Type: pt, Field: x.Field}
+			return
+		}
 		ref := fr.val(x.X)
 		c.safe("nil-deref", at, Not(Eq(ref, IntLit(0))), fmt.Sprintf("%s is not nil at field access .%s", x.X.Name(), pt.Underlying().(*types.Struct).Field(x.Field).Name()))
 		heap, fs, ft := c.fieldHeap(pt, x.Field)
@@ -1135,6 +1177,13 @@ func (fr *Frame) encodeDeferred(d *deferRec, at Term, st *State) {
 func (fr *Frame) encodeAlloc(x *ssa.Alloc, at Term, st *State) {
 	c := fr.c
 	elem := x.Type().Underlying().(*types.Pointer).Elem()
+	if _, ok := isStructPtr(x.Type()); ok && localStructAlloc(x) {
+		name := fr.localCellName(x)
+		c.cellVar(name, elem)
+		st.h[name] = c.zero(elem)
+		fr.places[x] = &Place{Kind: "cell", Heap: name, Sort: c.sortOf(elem), Type: elem}
+		return
+	}
 	if _, ok := isStructPtr(x.Type()); ok {
 		ref := c.allocRef(st)
 		si := c.structInfoOf(elem)
@@ -1179,13 +1228,61 @@ func (fr *Frame) encodeAlloc(x *ssa.Alloc, at Term, st *State) {
 		fr.vals[x] = ref
 		return
 	}
+	name := fr.localCellName(x)
+	c.cellVar(name, elem)
+	st.h[name] = c.zero(elem)
+	fr.places[x] = &Place{Kind: "cell", Heap: name, Sort: c.sortOf(elem), Type: elem}
+}
+
+func (fr *Frame) localCellName(x *ssa.Alloc) string {
 	name := "L_" + fr.id + sanitize(funcKey(fr.fn)) + "_" + x.Name()
 	if x.Comment != "" {
 		name += "_" + sanitize(x.Comment)
 	}
-	c.cellVar(name, elem)
-	st.h[name] = c.zero(elem)
-	fr.places[x] = &Place{Kind: "cell", Heap: name, Sort: c.sortOf(elem), Type: elem}
+	return name
+}
+
+// localStructAlloc: the address of a struct allocation never leaves the function: it is only used
+// for field access, whole loads/stores, and as the target of json.Unmarshal.
+func localStructAlloc(x *ssa.Alloc) bool {
+	for _, ref := range *x.Referrers() {
+		switch r := ref.(type) {
+		case *ssa.FieldAddr:
+			for _, rr := range *r.Referrers() {
+				switch u := rr.(type) {
+				case *ssa.UnOp, *ssa.DebugRef:
+				case *ssa.Store:
+					if u.Val == ssa.Value(r) {
+						return false
+					}
+				default:
+					return false
+				}
+			}
+		case *ssa.UnOp, *ssa.DebugRef:
+		case *ssa.Store:
+			if r.Val == ssa.Value(x) {
+				return false
+			}
+		case *ssa.MakeInterface:
+			for _, rr := range *r.Referrers() {
+				call, ok := rr.(*ssa.Call)
+				if !ok {
+					if _, isDbg := rr.(*ssa.DebugRef); isDbg {
+						continue
+					}
+					return false
+				}
+				callee := call.Common().StaticCallee()
+				if callee == nil || callee.String() != "encoding/json.Unmarshal" {
+					return false
+				}
+			}
+		default:
+			return false
+		}
+	}
+	return true
 }
 
 func isHandledOutParamCall(cc *ssa.CallCommon) bool {
@@ -1259,12 +1356,26 @@ func (fr *Frame) encodeUnOp(x *ssa.UnOp, at Term, st *State) {
 // assumeAllocated: a reference read from memory (or received) is below nextRef and non-negative.
 func (fr *Frame) assumeAllocated(t types.Type, v Term, st *State) {
 	c := fr.c
-	switch t.Underlying().(type) {
+	if isTimeType(t) {
+		return
+	}
+	switch u := t.Underlying().(type) {
 	case *types.Pointer, *types.Map:
 		c.assert(And(Le(IntLit(0), v), Lt(v, c.nextRef(st))))
 	case *types.Slice:
 		c.assert(And(Le(IntLit(0), slArr(v)), Lt(slArr(v), c.nextRef(st)), Le(IntLit(0), slOff(v)), Le(IntLit(0), slLen(v)), Le(slLen(v), slCap(v)),
 			Implies(Eq(slArr(v), IntLit(0)), Eq(slCap(v), IntLit(0)))))
+	case *types.Struct:
+		if u.NumFields() == 0 || strings.Contains(v.S, "!q") {
+			return
+		}
+		si := c.structInfoOf(t)
+		for _, f := range si.fields {
+			switch f.typ.Underlying().(type) {
+			case *types.Pointer, *types.Map, *types.Slice, *types.Struct:
+				fr.assumeAllocated(f.typ, Term{app(string(si.sort)+"_"+f.name, v), f.sort}, st)
+			}
+		}
 	}
 }
 
@@ -1399,6 +1510,11 @@ func (fr *Frame) encodeMakeInterface(x *ssa.MakeInterface) {
 		return
 	}
 	ctor := c.boxCtor(x.X.Type())
+	if _, isPlace := fr.places[x.X]; isPlace {
+		// address of a local (json.Unmarshal target): the box carries no usable value
+		fr.vals[x] = Term{app(ctor, IntLit(0)), SAny}
+		return
+	}
 	fr.vals[x] = Term{app(ctor, fr.val(x.X)), SAny}
 }
 
@@ -1513,7 +1629,11 @@ func (fr *Frame) instrWrites(ins ssa.Instruction, ws map[string]bool) {
 		ws["nextRef"] = true
 		c.heapVar("nextRef", SInt)
 		elem := x.Type().Underlying().(*types.Pointer).Elem()
-		if _, ok := isStructPtr(x.Type()); ok {
+		if _, ok := isStructPtr(x.Type()); ok && localStructAlloc(x) {
+			name := fr.localCellName(x)
+			c.cellVar(name, elem)
+			ws[name] = true
+		} else if _, ok := isStructPtr(x.Type()); ok {
 			si := c.structInfoOf(elem)
 			for i := range si.fields {
 				h, _, _ := c.fieldHeap(elem, i)
@@ -1556,6 +1676,12 @@ func (fr *Frame) addrWrites(addr ssa.Value, ws map[string]bool) {
 	switch a := addr.(type) {
 	case *ssa.FieldAddr:
 		pt := a.X.Type().Underlying().(*types.Pointer).Elem()
+		if al, ok := a.X.(*ssa.Alloc); ok && localStructAlloc(al) {
+			name := fr.localCellName(al)
+			c.cellVar(name, pt)
+			ws[name] = true
+			return
+		}
 		h, _, _ := c.fieldHeap(pt, a.Field)
 		ws[h] = true
 	case *ssa.IndexAddr:
@@ -1578,6 +1704,12 @@ func (fr *Frame) addrWrites(addr ssa.Value, ws map[string]bool) {
 			return
 		}
 		elem := a.Type().Underlying().(*types.Pointer).Elem()
+		if _, ok := isStructPtr(a.Type()); ok && localStructAlloc(a) {
+			name := fr.localCellName(a)
+			c.cellVar(name, elem)
+			ws[name] = true
+			return
+		}
 		if st, ok := isStructPtr(a.Type()); ok {
 			si := c.structInfoOf(st)
 			for i := range si.fields {
